@@ -1,14 +1,19 @@
 """C22 - CR committee state after a rollback equals the state built directly.
 
  1. TLC checks spec/Gov/CR.tla + Proposal.tla (one step = one block of CR transactions processed as
-    Committee.ProcessBlock does, or Committee.RollbackTo) from several start states and prints one behaviour per
-    explored edge; seeded simulation gives behaviours that cross an election boundary.
- 2. harness/cmd/crstate replays every behaviour on a real crstate.Committee (instance A) and after every step
+    Committee.ProcessBlock does, or a rollback as the chain does it: checkpoint.Manager.OnRollbackTo -> cr
+    Checkpoint.OnRollbackTo -> reset below CRVotingStartHeight / Committee.RollbackTo) from several start states and under
+    three constant sets and prints one behaviour per explored edge; seeded simulation gives behaviours that cross an
+    election boundary and a committee change.
+ 2. harness/cmd/crstate replays every behaviour on a real crstate.Committee (instance A, fed and rolled back through its
+    checkpoint.Manager) and after every step
     (i)  compares a canonical dump of the whole committee state (every exported field of KeyFrame, StateKeyFrame,
-         ProposalKeyFrame) of A -- which went through the behaviour's RollbackTo steps and through a sweep
-         "roll back to t, compare, re-process, compare" over earlier heights -- with instance B that processed only
-         the blocks of the current chain (differential oracle on the real code);
-    (ii) compares the spec's state record with the projection of A.
+         ProposalKeyFrame) of A -- which went through the behaviour's rollbacks and through a sweep "roll back to t,
+         compare, re-process, compare" over earlier heights, the bounds of the rollback path (CRVotingStartHeight+1,
+         CRVotingStartHeight, CRVotingStartHeight-1 = reset) included -- with instance B that processed only the blocks of
+         the current chain (differential oracle on the real code);
+    (ii) compares the spec's state record with the projection of A;
+    (iii) evaluates the CR deposit balance invariant of CR.tla (C28, CR side) and the budget invariants (C29) on A.
 """
 import json, os, importlib.util
 import vf
@@ -18,24 +23,63 @@ G = importlib.util.module_from_spec(_spec); _spec.loader.exec_module(G)
 
 META = dict(
     text="TLC explores the CR committee model (candidates, votes, deposits, election / claim / duty periods, impeachment, "
-         "proposals, funds; blocks of up to two CR transactions and RollbackTo) from five start states; every behaviour is "
-         "replayed on a real crstate.Committee and after every block the committee is rolled back to earlier heights and "
-         "re-processed: its complete state (canonical dump of all key frames) must equal that of a second committee that "
-         "processed only the blocks up to that height, and the spec's state record must equal the real one.",
-    note="Unit-level Committee fed with synthetic blocks (no chain store); bounded model (3 CRs, 2 proposals, <= 2 tx per "
-         "block, short periods); the History objects themselves are not compared, only the state they restore; see the "
-         "evidence assumptions for the transaction kinds and code paths not modelled.",
-    technique="TLA+ model of Committee.ProcessBlock/RollbackTo (TLC, per-edge behaviour extraction + seeded simulation) "
-              "replayed on the real Committee with a differential rollback oracle and spec-state projection",
+         "proposals, funds; blocks of up to two CR transactions and rollbacks) from nine start states (among them the end of "
+         "a term, where proposals are decided, candidates' lockups end, the next members are chosen and the committee "
+         "changes in the same blocks) under three constant sets; every behaviour is replayed on a real crstate.Committee "
+         "that is fed and rolled back through its checkpoint.Manager as in the node, and after every block the committee is "
+         "rolled back to earlier heights -- the bounds of the rollback path included -- and re-processed: its complete state "
+         "(canonical dump of all key frames) must equal that of a second committee that processed only the blocks up to that "
+         "height, and the spec's state record must equal the real one.",
+    note="Unit-level Committee + checkpoint.Manager fed with synthetic blocks (no chain store, no checkpoint files); bounded "
+         "model (3 CRs, 2 proposals, <= 2 tx per block, short periods, CRVotingStartHeight 1); the History objects "
+         "themselves are not compared, only the state they restore; see the evidence assumptions for the transaction kinds "
+         "and code paths not modelled.",
+    technique="TLA+ model of Committee.ProcessBlock and of the chain's rollback path (TLC, per-edge behaviour extraction + "
+              "seeded simulation, three constant sets) replayed on the real Committee with a differential rollback oracle, "
+              "spec-state projection and real-state invariants",
 )
 
 ALL = G.ALL_KINDS
+
+
+def handover_jobs(s, limit, small, steps=2):
+    """Blocks in which several change histories write the same fields, and the bounds of the rollback path."""
+    # heights 1..3: rollbacks to CRVotingStartHeight, the height above and the one below (reset) are steps of the model
+    s.job("fresh: registration from the first block", "fresh", G.CR_KINDS, 3, emit="all", limit=small, rolls=1)
+    # the end of a term, second election decided: the voting period ends at 24, the committee changes at 25 (the start
+    # state "handover" is at 23, "handover21" at 21 with the votes still to be cast)
+    #  - two seats, three candidates, lockup 1: a candidate unregisters at lockup distance 2 / 1 / 0 from the end of the
+    #    voting period (all behaviours are replayed: the interesting ones are few)
+    s.job("h2 handover: unregister and vote around the end of the voting period", "handover21", ["UnregisterCR", "VoteCR"], 4,
+          emit="all", limit=None, rolls=1, maxtx=1, variant="h2")
+    s.job("h2 first election: unregister and vote", "voting4", ["UnregisterCR", "VoteCR"], 4, emit="all", limit=small, rolls=1,
+          maxtx=1, variant="h2")
+    #  - long review period: proposals are decided (budget given back: manager history) in the blocks in which the
+    #    next members are chosen and the committee changes (committee history), with reviews, reject votes, impeachment
+    #    and node claims (state history) in the same blocks
+    s.job("h2 handover: proposals decided at the committee change", "handover",
+          ["Review", "Reject", "Impeach", "Claim", "UnregisterCR"], steps, emit="all", limit=limit, rolls=1, variant="h2")
+    #  - default constants: tracking / withdrawal (state history) and impeachment in the committee-change block
+    s.job("handover: tracking, withdrawal, impeachment at the committee change", "handover",
+          ["Tracking", "Withdraw", "Impeach", "Claim", "UnregisterCR"], steps, emit="all", limit=limit, rolls=1)
+    # a first election with nothing on the CR assets address: the committee history raises NeedAppropriation and the
+    # appropriation history drops it again in the same block (the node's CreateCRCAppropriationTransaction has nothing
+    # to appropriate)
+    s.job("unfunded first election: no appropriation to make", "unfunded", ["VoteCR", "Claim"], 4, emit="all", limit=small,
+          rolls=1, maxtx=1)
+    # the committee has just been seated: appropriation (appropriation history of the block before), first proposals
+    s.job("seated: appropriation, registration, review", "seated", ["Approp", "Proposal", "Review"], 3, emit="all", limit=small,
+          rolls=1)
+    # withdrawals with payload version 0 (blocks 14, 15) and 1 (from 16) and their rollback
+    s.job("legacy agreed: both withdraw payload versions", "agreed", ["Tracking", "Withdraw", "RealWithdraw"], 3, emit="all",
+          limit=small, rolls=1, variant="legacy")
 
 
 def run(chk):
     thorough = chk.tier == "thorough"
     s = G.Session(chk)
     if thorough:
+        handover_jobs(s, 2500, 1500, steps=3)
         s.job("fresh: CR registration", "fresh", G.CR_KINDS, 6, emit="all", limit=1500, rolls=2)
         s.job("voting: first election", "voting", G.CR_KINDS, 5, emit="all", limit=2500, rolls=2, rolldepth=4)
         s.job("duty: proposals and impeachment", "duty", ["Proposal", "Review", "Reject", "Impeach", "Withdraw"], 3, emit="all",
@@ -47,12 +91,22 @@ def run(chk):
         s.job("simulation duty, 30 steps", "duty", ALL, 30, emit="last", simulate="num=300", rolls=3, timeout=1700)
         s.job("simulation election, 30 steps", "election", ALL, 30, emit="last", simulate="num=300", rolls=3, timeout=1700)
         s.job("simulation voting, 30 steps", "voting", ALL, 30, emit="last", simulate="num=300", rolls=3, timeout=1700)
+        # (16 steps: up to 39; the third committee change at 41 would appropriate a fraction of a unit)
+        s.job("simulation handover, 16 steps", "handover", ALL, 16, emit="last", simulate="num=400", rolls=3, timeout=1700)
+        s.job("simulation h2 handover, 16 steps", "handover", ALL, 16, emit="last", simulate="num=400", rolls=3, timeout=1700,
+              variant="h2")
+        s.job("simulation legacy agreed, 30 steps", "agreed", ALL, 30, emit="last", simulate="num=200", rolls=3, timeout=1700,
+              variant="legacy")
     else:
         s.job("voting: first election", "voting", G.CR_KINDS, 3, emit="all", limit=350, rolls=1)
-        s.job("agreed: tracking, withdrawal", "agreed", ["Tracking", "Withdraw", "RealWithdraw"], 3, emit="all",
+        s.job("agreed: tracking, withdrawal, close", "agreed", ["Tracking", "Withdraw", "RealWithdraw", "Close"], 3, emit="all",
               limit=350, rolls=1)
-        s.job("simulation election, 12 steps", "election", ALL, 12, emit="last", simulate="num=40", rolls=2)
+        s.job("simulation election, 12 steps", "election", ALL, 12, emit="last", simulate="num=25", rolls=2)
         s.job("simulation duty, 12 steps", "duty", ALL, 12, emit="last", simulate="num=40", rolls=2)
+        # across a committee change that succeeds, into the next term (appropriation, proposals of the new term)
+        s.job("simulation handover, 10 steps", "handover", ALL, 10, emit="last", simulate="num=25", rolls=2)
+        s.job("simulation h2 handover, 10 steps", "handover", ALL, 10, emit="last", simulate="num=20", rolls=2, variant="h2")
+        handover_jobs(s, 300, 250)
     s.run_jobs(parallel=4 if not thorough else 8)
     # simulation prints every successor of the last step: keep a bounded sample of those
     cap = 400 if thorough else 40
@@ -73,6 +127,10 @@ def run(chk):
     fw = G.pick(allb, lambda b: sum(1 for x in b if x["act"] == "Block") >= 2, s.rng)
     recs = s.driver_once(cfgp, [fw], sweep=1, env={"CRSTATE_SELFTEST": "perturb"})
     chk.selftest("differential oracle: one field left behind by a rollback",
-                 any(r.get("kind") == "violation" and str(r.get("key", "")).startswith("C22:rollback-diff:") for r in recs))
+                 any(r.get("kind") == "violation" and str(r.get("key", "")).startswith(("C22:rollback-diff:", "C22:rollback-reset-diff:"))
+                     for r in recs))
+    recs = s.driver_once(cfgp, [fw], sweep=1, env={"CRSTATE_SELFTEST": "deposit"})
+    chk.selftest("deposit invariant on the real committee: one deposit released once too often",
+                 any(r.get("kind") == "violation" and str(r.get("key", "")).startswith("C28:cr-deposit-negative:") for r in recs))
     chk.assumptions += G.ASSUMPTIONS
     return chk.finish(exhaustive=False)
